@@ -613,6 +613,34 @@ func c19(x *mon.Ctx) {
 			}
 		}
 	}
+	// ---- every flag that takes a value accepts it as the next argument, too ("-name value"): the same run, the same exit code
+	//      (only -quiet and -test_local_getter are switches)
+	{
+		var split []*toolRun
+		for i, t := range runs {
+			if i%3 != 0 || !(t.Net == "" || t.Net == "honest" || t.Net == "outofdate" || t.Net == "dead") || t.Class == "time-zone" {
+				continue
+			}
+			var args []string
+			changed := false
+			for _, a := range t.Args {
+				eq := strings.Index(a, "=")
+				if strings.HasPrefix(a, "-") && eq > 1 && !strings.HasPrefix(a, "-quiet") && !strings.HasPrefix(a, "-test_local_getter") {
+					args = append(args, a[:eq], a[eq+1:])
+					changed = true
+				} else {
+					args = append(args, a)
+				}
+			}
+			if !changed {
+				continue
+			}
+			c := *t
+			c.Class, c.Param, c.Args = "flag-value-as-separate-argument", t.Class+"/"+t.Param, args
+			split = append(split, &c)
+		}
+		runs = append(runs, split...)
+	}
 	// ---- run
 	var rmu sync.Mutex
 	x.Each(len(runs), func(i int) {
